@@ -749,6 +749,31 @@ class Interp:
             body_out = final
         return body_out
 
+    def _call_args(self, call, s):
+        """Evaluated (positional, keyword) arguments of a call; *seq and **map are spread when known.
+        Returns None when a starred argument is not known."""
+        args = []
+        for a in call.args:
+            if isinstance(a, ast.Starred):
+                v = self.ev(a.value, s)
+                if isinstance(v, (list, tuple)):
+                    args.extend(v)
+                else:
+                    return None
+            else:
+                args.append(self.ev(a, s))
+        kwargs = {}
+        for k in call.keywords:
+            v = self.ev(k.value, s)
+            if k.arg is None:
+                if isinstance(v, dict) and all(isinstance(x, str) for x in v):
+                    kwargs.update(v)
+                else:
+                    return None
+            else:
+                kwargs[k.arg] = v
+        return args, kwargs
+
     def _as_call(self, node, s):
         """`node` if it is a Call; a synthetic obj.__getitem__(idx) call for a subscript of a heap object whose class
         defines __getitem__; else None."""
@@ -832,14 +857,14 @@ class Interp:
         if (node in self._inline_stack and receiver is None) or self._inline_stack.count(node) >= 4 \
            or any(isinstance(x, (ast.Yield, ast.YieldFrom)) for x in M.walk_no_nested(node)):
             return None
-        if any(isinstance(k.arg, type(None)) for k in call.keywords) or any(isinstance(a, ast.Starred) for a in call.args):
+        ak = self._call_args(call, s)
+        if ak is None:
             return None
         # a hook may want to answer this call itself
-        args = [self.ev(a, s) for a in call.args]
-        kwargs = {k.arg: self.ev(k.value, s) for k in call.keywords}
+        args, kwargs = ak
         r = self.h.call(self, call, self.canon(fname, s), args, kwargs, s)
         if r is not None:
-            self.emit(s, ('call', self.canon(fname, s), tuple(_evarg(a, x) for a, x in zip(args, call.args)), call.lineno))
+            self.emit(s, ('call', self.canon(fname, s), _evargs(args, call.args), call.lineno))
             return [(s, None if r is NONE else r)]
         params = [a.arg for a in node.args.posonlyargs + node.args.args]
         if bound and params:
@@ -856,8 +881,17 @@ class Interp:
                 local[nm] = self.ev(d, s)
         for nm, v in zip(params, args):
             local[nm] = v
+        if node.args.vararg is not None:
+            local[node.args.vararg.arg] = tuple(args[len(params):])
+        known = set(params) | {a.arg for a in node.args.kwonlyargs}
+        extra = {}
         for k, v in kwargs.items():
-            local[k] = v
+            if k in known or node.args.kwarg is None:
+                local[k] = v
+            else:
+                extra[k] = v
+        if node.args.kwarg is not None:
+            local[node.args.kwarg.arg] = extra
         for nm in params:
             local.setdefault(nm, TOP)
         # callee state: shares dotted (attribute) facts and the trace; own locals
@@ -881,7 +915,7 @@ class Interp:
                 del cs.env[k]
         elif bound and 'self' in s.env and 'self' not in local:
             cs.env['self'] = s.env['self']
-        self.emit(cs, ('call', self.canon(fname, s), tuple(_evarg(a, x) for a, x in zip(args, call.args)), call.lineno))
+        self.emit(cs, ('call', self.canon(fname, s), _evargs(args, call.args), call.lineno))
         self.emit(cs, ('enter', self.canon(fname, s), call.lineno))
         saved_scope, saved_cache = self.scope, getattr(self, '_locals_cache', None)
         self._inline_stack.append(node)
@@ -1153,6 +1187,10 @@ class Interp:
                     return v
             r = m.getattr_static(base, attr)
             return self._from_model(r)
+        if isinstance(base, M.External) and base.name == 'string' and attr in ('digits', 'ascii_letters', 'ascii_lowercase', 'ascii_uppercase',
+                                                                              'hexdigits', 'octdigits', 'punctuation', 'whitespace'):
+            import string as _string
+            return getattr(_string, attr)
         if isinstance(base, str) and attr in ('upper', 'lower', 'strip', 'startswith', 'endswith', 'join', 'split', 'replace', 'format', 'isdigit'):
             return ('boundmethod', base, attr)
         if isinstance(base, (list, dict)) and attr in ('append', 'extend', 'insert', 'pop', 'copy', 'keys', 'values', 'items', 'get', 'update', 'clear', 'index', 'remove', 'reverse', 'setdefault'):
@@ -1399,6 +1437,9 @@ class Interp:
         return self.ev(n.body if t else n.orelse, s)
 
     def ev_Compare(self, n, s):
+        forced = self.h.decide(self, n, s)       # the checker's domain knowledge also applies to comparisons used as values
+        if forced is not None:
+            return forced
         left = self.ev(n.left, s)
         lnode = n.left
         result = True
@@ -1477,12 +1518,16 @@ class Interp:
             if isinstance(cur, Sym) and isinstance(cur.attrs.get('path'), str):
                 fname = '%s.%s' % (cur.attrs['path'], n.func.attr)     # method of an object known by the path it was taken from
         # arguments first: an inlined helper call among them replaces the state's objects by copies
-        args = [self.ev(a, s) for a in n.args]
-        kwargs = {}
-        for k in n.keywords:
-            v = self.ev(k.value, s)
-            if k.arg is not None:
-                kwargs[k.arg] = v
+        ak = self._call_args(n, s)
+        if ak is not None:
+            args, kwargs = ak
+        else:
+            args = [self.ev(a, s) for a in n.args]
+            kwargs = {}
+            for k in n.keywords:
+                v = self.ev(k.value, s)
+                if k.arg is not None:
+                    kwargs[k.arg] = v
         # evaluate callee for bound-method detection
         fval = None
         if isinstance(n.func, ast.Attribute):
@@ -1494,7 +1539,7 @@ class Interp:
             fval = self.ev(n.func, s)
         self.ncalls = getattr(self, 'ncalls', 0) + 1
         r = self.h.call(self, n, fname, args, kwargs, s)
-        self.emit(s, ('call', fname, tuple(_evarg(a, x) for a, x in zip(args, n.args)), n.lineno))
+        self.emit(s, ('call', fname, _evargs(args, n.args), n.lineno))
         if r is not None:
             return None if r is NONE else r
         if self.inline_depth > 0 and len(self._inline_stack) < self.inline_depth:
@@ -1626,6 +1671,12 @@ def _evarg(a, x):
     return a if _known(a) else _text(x)
 
 
+def _evargs(args, nodes):
+    if len(args) == len(nodes) and not any(isinstance(x, ast.Starred) for x in nodes):
+        return tuple(_evarg(a, x) for a, x in zip(args, nodes))
+    return tuple(a if _known(a) else '?' for a in args)
+
+
 def _text(n):
     if n is None:
         return ''
@@ -1638,6 +1689,13 @@ def _text(n):
 def _mentions(text, full, root):
     import re
     return re.search(r'(?<![\w.])%s(?![\w])' % re.escape(root), text) is not None
+
+
+def private_only(fname, node, info):
+    """should_inline filter: interpret in place only private helpers (leading underscore, not dunder) and nested functions;
+    public methods stay calls (they are the interface the rules are stated against)."""
+    name = getattr(node, 'name', '')
+    return info is None or (name.startswith('_') and not name.startswith('__'))
 
 
 def events(trace, kind=None, name=None):
